@@ -15,6 +15,11 @@
 //!         tokio advances the clock to the next timer, so the call returns when the first of the keepalive / hold /
 //!         delay-open timers the session really started fires and `tick` has raised its event; reply `idle` when it
 //!         would never return (no such timer), `tie` when two timers were due at the same instant (both end the history)
+//!         the record of a `T` step ends with ` @<seconds on the paused clock since the session was created>`
+//!         `W<d>` (`h` lines; 1..60) the paused clock moves `d` seconds while the session is NOT polled (its timers' tasks
+//!         go on: a tick that falls due is queued); record = the unchanged state + ` @<clock>`.  A line whose `W`s add up
+//!         to two local hold times or more is refused (the hold timer would collect two un-awaited ticks, see timers.rs).
+//!         With `T` / `W` on the line, `aA` takes a stream that was connected before the clock ran (connecting waits).
 //!         `q<room>` from now on the application's outgoing PDU queue (`pdu_out`, 64 slots) has only <room> free slots
 //!         at the start of every step (the application is slow in writing to the socket); `send_pdu` is a `try_send`
 //!   OPEN  `<asn>:<hold>:<ap>`: the peer's AS in both widths (two-octet field = asn, or AS_TRANS plus the four-octet
@@ -113,6 +118,8 @@ pub enum Step {
     Room(u8),
     /// `h` lines only: `Session::tick()` with nothing pending but the session's own timers (paused clock)
     Timer,
+    /// `h` lines only: the paused clock moves this many seconds, the session is not polled
+    Wait(u8),
     /// `t` lines only: the PDU is written to the socket and `Session::tick()` is called
     Wire(Box<Step>),
     /// `t` lines only: the peer closes the connection and `Session::tick()` is called
@@ -182,6 +189,7 @@ impl Step {
             "aC" if parts.len() == 1 => Some(Step::AConn),
             "aA" if parts.len() == 1 => Some(Step::Attach),
             "T" if parts.len() == 1 => Some(Step::Timer),
+            _ if head.starts_with('W') && parts.len() == 1 => { let d = parse_num(&head[1..], 60)? as u8; if d == 0 { None } else { Some(Step::Wait(d)) } }
             _ if head.starts_with('q') && parts.len() == 1 => Some(Step::Room(parse_num(&head[1..], PDU_CAP as u64)? as u8)),
             _ => None,
         }
@@ -200,6 +208,7 @@ impl Step {
             Step::Attach => "aA".into(),
             Step::Room(n) => format!("q{}", n),
             Step::Timer => "T".into(),
+            Step::Wait(d) => format!("W{}", d),
             Step::Wire(inner) => format!("w{}", &inner.show()[1..]),
             Step::Close => "c".into(),
             Step::ReadErr(mid) => if *mid { "cM".into() } else { "wX".into() },
@@ -316,12 +325,18 @@ pub struct Live {
     hold_secs: u64,
     /// placeholders put into `pdu_out` before the current step
     filled: usize,
+    /// the paused clock when the session was created
+    base: tokio::time::Instant,
+    /// streams connected before the clock ran, for `aA` on lines with `T` / `W`
+    spares: Vec<(tokio::net::tcp::OwnedReadHalf, tokio::net::tcp::OwnedWriteHalf, tokio::net::TcpStream)>,
 }
 
 #[derive(Clone, Debug, PartialEq, Eq, PartialOrd, Ord)]
 pub struct Rec {
     st: u8, ok: bool, crt: bool, hold: bool, ka: bool, dop: bool, cnt: usize, conn: bool,
     neg: String, outs: Vec<String>, app: Vec<String>,
+    /// `T` / `W` steps: seconds on the paused clock since the session was created
+    at: Option<u64>,
 }
 
 #[derive(Clone, Debug, PartialEq, Eq)]
@@ -339,18 +354,20 @@ fn state_no(s: State) -> u8 {
 impl Rec {
     fn show(&self) -> String {
         let j = |v: &Vec<String>| if v.is_empty() { "-".to_string() } else { v.join(",") };
-        format!("{} {} {}{}{}{} {} {} {} {} {}", STATE_NAMES[self.st as usize], if self.ok { "ok" } else { "err" },
-            self.crt as u8, self.hold as u8, self.ka as u8, self.dop as u8, self.cnt, self.conn as u8, self.neg, j(&self.outs), j(&self.app))
+        format!("{} {} {}{}{}{} {} {} {} {} {}{}", STATE_NAMES[self.st as usize], if self.ok { "ok" } else { "err" },
+            self.crt as u8, self.hold as u8, self.ka as u8, self.dop as u8, self.cnt, self.conn as u8, self.neg, j(&self.outs), j(&self.app),
+            match self.at { Some(t) => format!(" @{}", t), None => String::new() })
     }
     fn parse(s: &str) -> Option<Rec> {
         let w: Vec<&str> = s.split(' ').collect();
-        if w.len() != 8 { return None; }
+        if w.len() != 8 && w.len() != 9 { return None; }
+        let at = if w.len() == 9 { Some(w[8].strip_prefix('@')?.parse().ok()?) } else { None };
         let st = STATE_NAMES.iter().position(|n| *n == w[0])? as u8;
         let t = w[2].as_bytes();
         if t.len() != 4 { return None; }
         let l = |x: &str| if x == "-" { vec![] } else { x.split(',').map(|y| y.to_string()).collect() };
         Some(Rec { st, ok: w[1] == "ok", crt: t[0] == b'1', hold: t[1] == b'1', ka: t[2] == b'1', dop: t[3] == b'1',
-            cnt: w[3].parse().ok()?, conn: w[4] == "1", neg: w[5].to_string(), outs: l(w[6]), app: l(w[7]) })
+            cnt: w[3].parse().ok()?, conn: w[4] == "1", neg: w[5].to_string(), outs: l(w[6]), app: l(w[7]), at })
     }
 }
 
@@ -379,9 +396,18 @@ async fn tick_guarded(s: &mut Session<VCfg>) -> Option<bool> {
 impl Live {
     pub fn new(cfg: Cfg, init: Init) -> Live { Live::new_on(cfg, init, false) }
 
-    pub fn new_on(cfg: Cfg, init: Init, real: bool) -> Live {
+    pub fn new_on(cfg: Cfg, init: Init, real: bool) -> Live { Live::new_with(cfg, init, real, 0) }
+
+    pub fn new_with(cfg: Cfg, init: Init, real: bool, n_spares: usize) -> Live {
         with_rt_of(real, |r| {
             r.rt.block_on(async {
+                let mut spares = Vec::new();
+                for _ in 0..n_spares {
+                    let peer = tokio::net::TcpStream::connect(r.addr).await.unwrap();
+                    let (sock, _) = r.listener.accept().await.unwrap();
+                    let (rd, wr) = sock.into_split();
+                    spares.push((rd, wr, peer));
+                }
                 let peer = tokio::net::TcpStream::connect(r.addr).await.unwrap();
                 let (sock, _) = r.listener.accept().await.unwrap();
                 let (rd, wr) = sock.into_split();
@@ -395,7 +421,8 @@ impl Live {
                     s.verif_set_timers(init.crt, init.hold, init.ka, init.dop);
                     if !init.conn { let _ = s.verif_take_connection(); }
                 }
-                Live { s: Some(s), app: app_rx, pdus: pdu_rx, cmd: cmd_tx, _wr: wr, peer, old: Vec::new(), dead: false, real, side: Vec::new(), pdu_tx, room: PDU_CAP, hold_secs: cfg.h as u64, filled: 0 }
+                Live { s: Some(s), app: app_rx, pdus: pdu_rx, cmd: cmd_tx, _wr: wr, peer, old: Vec::new(), dead: false, real, side: Vec::new(), pdu_tx, room: PDU_CAP, hold_secs: cfg.h as u64, filled: 0,
+                       base: tokio::time::Instant::now(), spares }
             })
         })
     }
@@ -435,13 +462,13 @@ impl Live {
         Out::Rec(Rec {
             st: state_no(s.state()), ok, crt: sn.connect_retry_timer_running, hold: sn.hold_timer_running,
             ka: sn.keepalive_timer_running, dop: sn.delay_open_timer_running, cnt: sn.connect_retry_counter,
-            conn: sn.has_connection, neg: s.negotiated().map(show_neg).unwrap_or_else(|| "-".into()), outs, app,
+            conn: sn.has_connection, neg: s.negotiated().map(show_neg).unwrap_or_else(|| "-".into()), outs, app, at: None,
         })
     }
 
     pub fn step(&mut self, st: &Step) -> Out {
         if self.dead { return Out::Panic; }
-        enum Act { Ev(Event), Msg(BgpMsg<Bytes>), Start, Conn, Wire(Vec<u8>), Close, Attach, Cmd(Command), Burst(Vec<u8>, u8), Timer, CloseMid }
+        enum Act { Ev(Event), Msg(BgpMsg<Bytes>), Start, Conn, Wire(Vec<u8>), Close, Attach, Cmd(Command), Burst(Vec<u8>, u8), Timer, CloseMid, Wait(u8) }
         let act = match st {
             Step::Ev(k, o) => {
                 let ev = match (*k, o) {
@@ -472,6 +499,7 @@ impl Live {
             Step::Attach => Act::Attach,
             Step::Room(n) => { self.room = *n as usize; return self.record(true); }
             Step::Timer => { if self.real { return Out::Unparsable; } Act::Timer }
+            Step::Wait(d) => { if self.real { return Out::Unparsable; } Act::Wait(*d) }
             Step::Wire(inner) => {
                 if !self.has_conn() { return Out::NoConn; }
                 Act::Wire(match &**inner {
@@ -500,12 +528,12 @@ impl Live {
             }
         }
         if matches!(act, Act::Attach) {
-            let (rd, wr, peer) = with_rt_of(self.real, |r| r.rt.block_on(async {
+            let (rd, wr, peer) = if let Some(t) = self.spares.pop() { t } else { with_rt_of(self.real, |r| r.rt.block_on(async {
                 let peer = tokio::net::TcpStream::connect(r.addr).await.unwrap();
                 let (sock, _) = r.listener.accept().await.unwrap();
                 let (rd, wr) = sock.into_split();
                 (rd, wr, peer)
-            }));
+            })) };
             let old_wr = std::mem::replace(&mut self._wr, wr);
             let old_peer = std::mem::replace(&mut self.peer, peer);
             self.old.push((old_wr, old_peer));
@@ -518,6 +546,8 @@ impl Live {
         let (app, side) = (&mut self.app, &mut self.side);
         let special = std::cell::Cell::new(0u8);
         let hold_secs = self.hold_secs;
+        let timed = matches!(act, Act::Timer | Act::Wait(_));
+        let base = self.base;
         let r = with_rt_of(self.real, |r| catch_unwind(AssertUnwindSafe(|| r.rt.block_on(async {
             use tokio::io::AsyncWriteExt;
             match act {
@@ -566,9 +596,11 @@ impl Live {
                     let sn = s.verif_snapshot();
                     let any = sn.keepalive_timer_running || sn.hold_timer_running || sn.delay_open_timer_running;
                     let limit = if any { hold_secs.max(10) + 2 } else { 0 };
-                    let mut pending = [false; 3];
                     for _ in 0..8 { tokio::task::yield_now().await; }
+                    // a tick may be waiting already (it fell due while the session was not polled: `W`)
+                    let mut pending = s.verif_timer_ticks_pending();
                     for _ in 0..limit {
+                        if pending.iter().any(|p| *p) { break; }
                         tokio::time::sleep(std::time::Duration::from_secs(1)).await;
                         for _ in 0..8 { tokio::task::yield_now().await; }
                         pending = s.verif_timer_ticks_pending();
@@ -583,6 +615,14 @@ impl Live {
                         _ => { special.set(2); Some(true) }
                     }
                 }
+                Act::Wait(d) => {
+                    for _ in 0..8 { tokio::task::yield_now().await; }
+                    for _ in 0..d {
+                        tokio::time::sleep(std::time::Duration::from_secs(1)).await;
+                        for _ in 0..8 { tokio::task::yield_now().await; }
+                    }
+                    Some(true)
+                }
             }
         }))));
         match special.get() { 1 => { self.dead = true; return Out::Idle; } 2 => { self.dead = true; return Out::Tie; } _ => {} }
@@ -594,7 +634,10 @@ impl Live {
                 if std::env::var_os("VERIF_DEBUG_PANIC").is_some() { eprintln!("panic payload: {}", msg); }
                 if msg.contains("not yet implemented") { Out::Todo } else { Out::Panic }
             }
-            Ok(ok) => self.record(ok),
+            Ok(ok) => {
+                let at = if timed { Some(with_rt_of(self.real, |r| { let _e = r.rt.enter(); tokio::time::Instant::now().duration_since(base).as_secs() })) } else { None };
+                match self.record(ok) { Out::Rec(mut r) => { r.at = at; Out::Rec(r) } o => o }
+            }
         }
     }
 }
@@ -620,7 +663,7 @@ fn parse_tick_step(t: &str) -> Option<Step> {
         if k < 2 { return None; }
         return Some(Step::Burst(k, parse_num(p[1], 200)? as u8));
     }
-    if t == "T" { return None; }   // timers fire through tick() on the paused clock of the `h` lines only
+    if t == "T" || t.starts_with('W') { return None; }   // timers fire through tick() on the paused clock of the `h` lines only
     if let Some(rest) = t.strip_prefix('w') {
         return match Step::parse(&format!("m{}", rest))? { Step::MRefresh => None, m => Some(Step::Wire(Box::new(m))) };
     }
@@ -661,7 +704,9 @@ pub fn parse_line(line: &str) -> Option<(Cfg, Init, Vec<Step>)> {
     let mut steps = Vec::new();
     for t in &w[3..] { steps.push(Step::parse(t)?); }
     // attaching a stream waits for the socket: the paused clock could jump meanwhile
-    if steps.contains(&Step::Timer) && steps.contains(&Step::Attach) { return None; }
+    // un-polled time stays below two hold intervals (the hold timer never has two ticks outstanding when it is reset)
+    let wsum: u64 = steps.iter().map(|s| if let Step::Wait(d) = s { *d as u64 } else { 0 }).sum();
+    if cfg.h != 0 && wsum >= 2 * cfg.h as u64 { return None; }
     Some((cfg, init, steps))
 }
 
@@ -670,7 +715,11 @@ fn show_line(cfg: &Cfg, init: &Init, steps: &[Step]) -> String {
 }
 
 pub fn run(cfg: Cfg, init: Init, steps: &[Step]) -> Vec<Out> {
-    let mut l = Live::new(cfg, init);
+    // attaching a stream waits for the socket, and the paused clock could jump meanwhile: lines that let time pass
+    // get their streams before the session exists
+    let timed = steps.iter().any(|s| matches!(s, Step::Timer | Step::Wait(_)));
+    let n_spares = if timed { steps.iter().filter(|s| **s == Step::Attach).count() } else { 0 };
+    let mut l = Live::new_with(cfg, init, false, n_spares);
     let mut v = Vec::new();
     for st in steps {
         let o = l.step(st);
@@ -711,7 +760,7 @@ fn rfc_event(st: &Step, dop: bool, passive: bool) -> Option<u8> {
         Step::MKeep => 26,
         Step::MUpd(_) => 27,
         Step::MNotif(c, s) => if *c == 2 && *s == 1 { 24 } else { 25 },
-        Step::MRefresh | Step::Attach | Step::Room(_) | Step::Timer => return None,   // Timer: judged separately
+        Step::MRefresh | Step::Attach | Step::Room(_) | Step::Timer | Step::Wait(_) => return None,   // Timer: judged separately
         Step::AStart => if passive { 4 } else { 1 },
         Step::AConn => 17,
         Step::Wire(inner) => return rfc_event(inner, dop, passive),
@@ -876,7 +925,7 @@ fn random_open(rng: &mut Rng, malformed_ap: bool) -> OpenP {
 
 fn step_kind(st: &Step, dop: bool) -> u8 {
     match st { Step::Ev(k, _) => *k, Step::MOpen(_) => if dop { 20 } else { 12 }, Step::MKeep => 17, Step::MUpd(_) | Step::Burst(..) => 18,
-        Step::MNotif(2, 1) => 15, Step::MNotif(..) => 16, Step::MRefresh | Step::Attach | Step::Room(_) | Step::Timer => 255, Step::AStart => 3, Step::AConn => 10,
+        Step::MNotif(2, 1) => 15, Step::MNotif(..) => 16, Step::MRefresh | Step::Attach | Step::Room(_) | Step::Timer | Step::Wait(_) => 255, Step::AStart => 3, Step::AConn => 10,
         Step::Wire(inner) => step_kind(inner, dop), Step::Close | Step::ReadErr(true) => 11, Step::ReadErr(false) => 13, Step::CmdDisconnect => 1, Step::CmdKeepalive => 255 }
 }
 
@@ -930,6 +979,39 @@ impl Prop for C08 {
             if rng.chance(4, 5) { steps.push(Step::MKeep); }
             for _ in 0..rng.usize(1, 14) {
                 steps.push(match rng.below(10) { 0 => Step::MKeep, 1 => Step::MUpd(1), 2 => Step::Ev(17, None), 3 => if rng.bool() { Step::Ev(7, None) } else { Step::AStart }, _ => Step::Timer });
+            }
+            v.push(show_line(&cfg, &FRESH, &steps));
+        }
+        // ... and on the SECOND connection of a session: established, part of the hold time passes un-polled (`W`), the
+        // peer ends the connection (NOTIFICATION / TcpConnectionFails: hold and keepalive timers are left running), a new
+        // stream is attached and a new OPEN accepted (`start()` on running timers must re-arm them), then time passes
+        for i in 0..(if tier == Tier::Thorough { 2000 } else { 120 }) {
+            let h = *rng.pick(&[10u16, 10, 9, 12, 30, 90, 4]);
+            let cfg = Cfg { d: false, n: true, p: true, x: true, a: false, h };
+            let peer_hold = *rng.pick(&[90u16, 90, h, 30, 0]);
+            let open = Step::MOpen(OpenP { asn: 65001, hold: peer_hold, ap: vec![], field: None });
+            let mut steps = vec![Step::AStart, Step::AConn, open.clone()];
+            if rng.chance(4, 5) { steps.push(Step::MKeep); }
+            for _ in 0..rng.usize(0, 3) { steps.push(if rng.bool() { Step::Timer } else { Step::MUpd(1) }); }
+            let w = rng.range(1, (h as u64 * 2 - 1).min(60)) as u8;
+            if i % 8 != 7 { steps.push(Step::Wait(w)); }
+            steps.push(match rng.below(3) { 0 => Step::MNotif(6, 2), 1 => Step::Ev(11, None), _ => Step::MNotif(6, 4) });
+            steps.extend([Step::Attach, Step::AStart, Step::AConn, open.clone()]);
+            if rng.bool() { steps.push(Step::MKeep); }
+            for _ in 0..rng.usize(2, 8) { steps.push(match rng.below(8) { 0 => Step::MKeep, 1 => Step::MUpd(1), _ => Step::Timer }); }
+            v.push(show_line(&cfg, &FRESH, &steps));
+        }
+        // ... time passing between the messages: `W` everywhere in an established session
+        for _ in 0..(if tier == Tier::Thorough { 2000 } else { 120 }) {
+            let h = *rng.pick(&[10u16, 9, 12, 30, 90, 3, 6, 0]);
+            let cfg = Cfg { d: false, n: true, p: true, x: true, a: false, h };
+            let mut steps = vec![Step::AStart, Step::AConn, Step::MOpen(OpenP { asn: 65001, hold: *rng.pick(&[90u16, 10, 3, 0]), ap: vec![], field: None }), Step::MKeep];
+            let mut budget = if h == 0 { 40 } else { (h as u64 * 2 - 1).min(60) };
+            for _ in 0..rng.usize(2, 12) {
+                steps.push(match rng.below(6) {
+                    0 => Step::MKeep, 1 => Step::MUpd(1),
+                    2 | 3 if budget > 0 => { let w = rng.range(1, budget.min(h.max(3) as u64)); budget -= w; Step::Wait(w as u8) }
+                    _ => Step::Timer });
             }
             v.push(show_line(&cfg, &FRESH, &steps));
         }
@@ -1133,6 +1215,12 @@ impl Prop for C08 {
         let mut open_accepted = false; // an OPEN from an allowed AS took the session to OpenConfirm, and it stayed there
         let (mut t_hold, mut t_ka) = (init.hold, init.ka); // hold / keepalive timer running before the step
         let mut room = PDU_CAP; // free slots of the application's outgoing queue at the start of a step (`q<room>`)
+        // the paused clock (from the ` @<s>` of `T` / `W` records) and when the peer was last heard from in the sense of the
+        // HoldTimer: an OPEN was accepted (RFC 4271 8.2.2: "sets the HoldTimer according to the negotiated value"), a
+        // KEEPALIVE arrived in OpenConfirm / Established or an UPDATE in Established ("restarts its HoldTimer")
+        let mut now: u64 = 0;
+        let mut hold_armed: Option<u64> = None;
+        let mut neg_hold: Option<u64> = None;
         for (i, (step, out)) in steps.iter().zip(outs.iter()).enumerate() {
             let r = match out {
                 Out::Rec(r) => r,
@@ -1250,6 +1338,20 @@ impl Prop for C08 {
             } else if fwd != 0 {
                 return Err(format!("step {} `{}`: an UPDATE was handed to the application without one being received", i, step.show()));
             }
+            // the HoldTimer does not expire early (property C20 lifted to the session): a Hold Timer Expired NOTIFICATION
+            // raised by a timer of the session comes no earlier than the negotiated hold time after the peer was last heard
+            if let Some(t) = r.at { now = t; }
+            if matches!(step, Step::Timer) && r.outs.iter().any(|o| o == "N4.0") {
+                if let (Some(a), Some(h)) = (hold_armed, neg_hold) {
+                    if h > 0 && now < a + h {
+                        return Err(format!("step {} `T`: HoldTimer_Expires (NOTIFICATION 4.0) at {} s, but the HoldTimer was (re)started at {} s with a negotiated hold time of {} s", i, now, a, h));
+                    }
+                }
+            }
+            let heard = (r.st == 5 && st != 5) || (r.st == 6 && ((st == 6 && matches!(ev, Some(26) | Some(27))) || (st == 5 && ev == Some(26))));
+            if heard && !forced { hold_armed = Some(now); }
+            if !r.hold { hold_armed = None; }
+            neg_hold = r.neg.strip_prefix('h').and_then(|x| x.split('/').next()).and_then(|x| x.parse().ok());
             st = r.st;
             dop = r.dop;
             conn = r.conn;
@@ -1272,6 +1374,21 @@ impl Prop for C08 {
             return format!("tick:{}:{}", if est { "reaches-Established" } else { "no-Established" }, last.split(' ').next().unwrap_or("?"));
         }
         if w.len() < 4 { return "bad".into(); }
+        // lines that let a timer fire: which timer's event `tick()` raised at the last `T`, in which state, local hold time
+        if w[3..].iter().any(|t| *t == "T") && reply != "bad-op" {
+            let recs: Vec<&str> = reply.split(" ; ").collect();
+            if let Some(j) = (0..recs.len().min(w.len() - 3)).rev().find(|j| w[3 + *j] == "T") {
+                let before = if j == 0 { let f = w[2].split(':').next().unwrap_or("-"); f.parse::<usize>().ok().map(|i| STATE_NAMES[i.min(6)]).unwrap_or("Idle") }
+                    else { recs[j - 1].split(' ').next().unwrap_or("?") };
+                let f: Vec<&str> = recs[j].split(' ').collect();
+                let fired = if f.len() < 8 { recs[j] } else if f[6].contains("N4.0") { "hold:N4.0" } else if f[6] == "K" { "keepalive:K" }
+                    else if f[6].starts_with('O') { "delayopen:OPEN" } else if f[6].starts_with('N') { "other-NOTIFICATION" } else { "no-PDU" };
+                let hcls = match w[1].split('h').nth(1).and_then(|h| h.parse::<u32>().ok()) { Some(0) => "hold0", Some(1..=2) => "hold1-2", _ => "hold3+" };
+                let reconnect = w[3..].iter().any(|t| *t == "aA");
+                let waited = w[3..].iter().any(|t| t.starts_with('W'));
+                return format!("timer:{}:{}:{}{}{}", before, fired, hcls, if waited { ":after-W" } else { "" }, if reconnect { ":second-connection" } else { "" });
+            }
+        }
         let fin = last.split(' ').next().unwrap_or("?");
         if w.len() == 4 {
             let from = w[2].split(':').next().unwrap_or("-");
